@@ -28,6 +28,7 @@ struct Slot {
 }
 
 struct Parked {
+    token: u64,
     slot: Arc<Slot>,
     info: u64,
     cond: Option<Cond>,
@@ -47,6 +48,10 @@ struct State {
     max_steps: u64,
     finished: bool,
     last_released: Option<u64>,
+    /// arrival number of the task released last (a stale tag of another thread can repeat, an
+    /// arrival number cannot)
+    last_token: u64,
+    arrivals: u64,
     escaped: Vec<String>,
     polls: u64,
 }
@@ -63,6 +68,7 @@ static NEXT_TID: AtomicUsize = AtomicUsize::new(1);
 thread_local! {
     static MY_ID: Cell<usize> = const { Cell::new(usize::MAX) };
     static MY_INFO: Cell<u64> = const { Cell::new(0) };
+    static MY_TOKEN: Cell<u64> = const { Cell::new(u64::MAX - 1) };
 }
 
 fn ext() -> Option<Arc<Ext>> {
@@ -107,7 +113,7 @@ fn sample(skip: i32) -> Option<Vec<(i32, u64, u64)>> {
         };
         // state is the first field after the closing parenthesis of the command name
         let st = stat.rsplit_once(')').map(|x| x.1.trim_start().chars().next().unwrap_or('R')).unwrap_or('R');
-        if st != 'S' && st != 'D' && st != 'Z' && st != 'X' {
+        if st != 'S' && st != 'Z' && st != 'X' {
             return None;
         }
         let ss = std::fs::read_to_string(format!("/proc/self/task/{}/schedstat", tid)).unwrap_or_default();
@@ -198,6 +204,9 @@ fn controller_loop(ext: &Arc<Ext>) -> Outcome {
             st.trace.push(k as u32);
             k
         };
+        if std::env::var("VERIF_DUMP_DECISIONS").is_ok() {
+            println!("DEC step={} opts={:?} pick={}", st.steps, views.iter().map(|v| format!("{:x}{}", v.info, if v.is_current { "*" } else { "" })).collect::<Vec<_>>(), k);
+        }
         let chosen = idx[k];
         let p = st.parked.remove(chosen);
         for q in st.parked.iter_mut() {
@@ -207,6 +216,7 @@ fn controller_loop(ext: &Arc<Ext>) -> Outcome {
             st.switches += 1;
         }
         st.last_released = Some(p.info);
+        st.last_token = p.token;
         drop(st);
         let mut g = p.slot.go.lock().unwrap();
         *g = true;
@@ -219,8 +229,13 @@ fn park(info: u64, cond: Option<Cond>, desc: &'static str) {
     let slot = Arc::new(Slot { go: Mutex::new(false), cv: Condvar::new() });
     {
         let mut st = e.st.lock().unwrap();
-        let was_current = st.last_released.is_some() && st.last_released == Some(MY_INFO.with(|c| c.get()));
-        st.parked.push(Parked { slot: slot.clone(), info, cond, desc, was_current });
+        // "current" = the same thread continuing the same system (or the caller continuing):
+        // which OS thread picks up the *next* system is the pool's business and must not show
+        let was_current = st.last_token == MY_TOKEN.with(|c| c.get()) && st.last_released.map(crate::tag_sid) == Some(crate::tag_sid(info));
+        st.arrivals += 1;
+        let token = st.arrivals;
+        MY_TOKEN.with(|c| c.set(token));
+        st.parked.push(Parked { token, slot: slot.clone(), info, cond, desc, was_current });
     }
     MY_INFO.with(|c| c.set(info));
     let mut g = slot.go.lock().unwrap();
@@ -279,6 +294,8 @@ pub fn run_ext<F: FnOnce()>(cfg: Config, main: F) -> Report {
             max_steps: cfg.max_steps,
             finished: false,
             last_released: None,
+            last_token: u64::MAX,
+            arrivals: 0,
             escaped: Vec::new(),
             polls: 0,
         }),
@@ -287,6 +304,7 @@ pub fn run_ext<F: FnOnce()>(cfg: Config, main: F) -> Report {
     *CUR.lock().unwrap() = Some(e.clone());
     MY_ID.with(|c| c.set(0));
     MY_INFO.with(|c| c.set(0));
+    MY_TOKEN.with(|c| c.set(u64::MAX - 1));
     ACTIVE.store(true, Ordering::SeqCst);
     let e2 = e.clone();
     let ctl = std::thread::Builder::new().name("detsim-controller".into()).spawn(move || controller(e2)).expect("controller");
